@@ -261,9 +261,10 @@ type BlockCtx struct {
 	Clamped bool
 }
 
-// Big stands for "a number too large for the abstraction" in lenient mode: larger than every honest value,
-// small enough that adding slot / epoch sized numbers to it stays below 2^31.
-const Big = 1000000000
+// Big stands for "a number too large for the abstraction" in lenient mode: numbers below it are kept exactly,
+// anything from Big on is clamped to Big.  It is larger than every honest value and small enough that adding
+// slot / epoch / balance sized numbers to it stays below 2^31.
+const Big = 2000000000
 
 func (p *proj) absHeader(h *common.BeaconBlockHeader) AbsHeader {
 	r := HeaderRoot(h)
